@@ -1130,7 +1130,28 @@ func walkPathsP(start Loc, terminal func(ssa.Instruction) bool, edgeOK func(b *s
 	}
 	onPath := map[key]bool{}
 	pc := &pathCtx{children: map[*frame]map[*ssa.Call]*frame{}}
-	root := &frame{fn: start.B.Parent()}
+	var build func(fn *ssa.Function, depth int) *frame
+	build = func(fn *ssa.Function, depth int) *frame {
+		fr := &frame{fn: fn}
+		if depth < 3 && theWorld != nil && isHelper(fn) {
+			if sites := theWorld.callSitesOf(fn); len(sites) == 1 {
+				c := sites[0]
+				parent := build(c.Parent(), depth+1)
+				fr.parent, fr.call, fr.retBlock, fr.depth = parent, c, c.Block(), parent.depth+1
+				for i, in := range c.Block().Instrs {
+					if in == ssa.Instruction(c) {
+						fr.retIdx = i + 1
+					}
+				}
+				if pc.children[parent] == nil {
+					pc.children[parent] = map[*ssa.Call]*frame{}
+				}
+				pc.children[parent][c] = fr
+			}
+		}
+		return fr
+	}
+	root := build(start.B.Parent(), 0)
 	emit := func(end pathEnd) error {
 		n++
 		if n > budget {
@@ -1231,7 +1252,35 @@ func phiFeasible(b *ssa.BasicBlock, succ int, path []ssa.Instruction) bool {
 		}
 	}
 	if x, eq, isN := nilCompare(c); isN {
-		v := valueOnPath(x, path)
+		v := valueOnPath(rvI(x, len(path)-1), path)
+		// contradiction with an earlier nil test of the same (resolved) value on this path
+		if !isNilConst(v) {
+			contra := false
+			for i := 0; i+1 < len(path); i++ {
+				iff, isIf := path[i].(*ssa.If)
+				if !isIf || path[i].Block().Parent() != path[i+1].Block().Parent() {
+					continue
+				}
+				pb := iff.Block()
+				for si, sb := range pb.Succs {
+					if sb != path[i+1].Block() {
+						continue
+					}
+					if pc2, pt, ok2 := edgeAssertion(pb, si); ok2 {
+						if px, peq, isN2 := nilCompare(pc2); isN2 {
+							pv := valueOnPath(rvI(px, i), path)
+							if pv == v && (peq == pt) != (eq == truth) {
+								contra = true
+							}
+						}
+					}
+					break
+				}
+			}
+			if contra {
+				return false
+			}
+		}
 		switch v.(type) {
 		case *ssa.MakeInterface, *ssa.Alloc, *ssa.MakeSlice, *ssa.MakeMap, *ssa.MakeClosure, *ssa.FieldAddr:
 			return eq != truth // x is non-nil: edge asserting x == nil infeasible
@@ -1243,7 +1292,7 @@ func phiFeasible(b *ssa.BasicBlock, succ int, path []ssa.Instruction) bool {
 		return true
 	}
 	if bo, isB := c.(*ssa.BinOp); isB && (bo.Op == token.EQL || bo.Op == token.NEQ) {
-		x, y := valueOnPath(bo.X, path), valueOnPath(bo.Y, path)
+		x, y := valueOnPath(rvI(bo.X, len(path)-1), path), valueOnPath(rvI(bo.Y, len(path)-1), path)
 		cx, okx := constOf(x)
 		cy, oky := constOf(y)
 		if okx && oky && cx.Value != nil && cy.Value != nil {
